@@ -24,14 +24,15 @@ None == -1                       \* unit-module slot not mapped
 NoArray == [ex |-> FALSE, v |-> << >>]
 NoShared == [ex |-> FALSE, alias |-> FALSE, v |-> << >>]
 
-(* m.regs   : [0..63 -> Opt]           m.arrs  : [Addrs -> [ex, v : Seq(Opt)]]      *)
+RegDom == 0..69    \* 0..63 architectural; 64..69 ghost registers of source-level semantics (Asm)
+(* m.regs   : [RegDom -> Opt]           m.arrs  : [Addrs -> [ex, v : Seq(Opt)]]      *)
 (* m.shregs : [0..63 -> Opt]           m.sharrs: [Addrs -> [ex, alias, v]]          *)
 (* m.um     : Seq(None or phys)        m.used  : SUBSET Nat                         *)
 (* m.pc, m.status in {"run","done","fault","wait","unspec"}, m.fline, m.fkind       *)
 (* m.meas   : remaining scripted measurement outcomes; m.qlog : quantum events      *)
 NewMachine(addrs, umsize, meas) ==
-  [ regs |-> [r \in 0..63 |-> Undef], arrs |-> [a \in addrs |-> NoArray],
-    shregs |-> [r \in 0..63 |-> Undef], sharrs |-> [a \in addrs |-> NoShared],
+  [ regs |-> [r \in RegDom |-> Undef], arrs |-> [a \in addrs |-> NoArray],
+    shregs |-> [r \in RegDom |-> Undef], sharrs |-> [a \in addrs |-> NoShared],
     um |-> [i \in 1..umsize |-> None], used |-> {},
     pc |-> 0, status |-> "run", fline |-> -1, fkind |-> "",
     meas |-> meas, qlog |-> << >> ]
